@@ -281,3 +281,88 @@ def t5v_vex_layout(chk, prog, rule="T5v"):
     chk.require(ok, rule, rule + "/descriptor-shift", loc_str(shifts[0]) if shifts else loc_str(f),
                 "the VEX descriptor is shifted right by one bit before its fields are placed",
                 "%d shift statements" % len(shifts))
+
+
+# --------------------------------------------------------------------------
+class _NoBaseDomain:
+    """state: frozenset of (operand has the no-base marker, mod field cleared since) pairs, kept path-sensitively"""
+
+    def __init__(self, prog, nobase_val):
+        self.prog, self.nb = prog, nobase_val
+        self.viol = []
+        self.nsites = 0
+
+    def copy(self, s): return s
+    def join(self, a, b): return a | b
+    def equal(self, a, b): return a == b
+    def widen(self, o, n): return n
+
+    def decl(self, vd, s):
+        for c in kids(vd):
+            s = self.eval(c, s)
+        return s
+
+    def eval(self, e, s):
+        e0 = strip(e)
+        if not e0 or s is None:
+            return s
+        k, ks = e0.get("kind"), kids(e0)
+        if k in ("BinaryOperator", "CompoundAssignOperator") and e0.get("opcode", "").endswith("=") and e0.get("opcode") not in ("==", "!=", "<=", ">="):
+            s = self.eval(ks[1], s)
+            l = strip(ks[0])
+            if l.get("kind") == "MemberExpr":
+                own, fld = EFF.owner_field(l)
+                v = ConstEval(self.prog).try_eval(ks[1])
+                if own == "operand" and fld == "reg" and e0["opcode"] == "=":
+                    nb = (v == self.nb)
+                    return frozenset((nb, mz if nb else mz) for (_, mz) in s)
+                if own == "instr" and fld == "mod_disp":
+                    z = (e0["opcode"] == "=" and v == 0)
+                    return frozenset((nbv, z) for (nbv, _) in s)
+                if own == "prefix" and fld in ("reg", "sib") and v is None:
+                    self.nsites += 1
+                    if any(nbv and not mz for (nbv, mz) in s):
+                        self.viol.append((e0, "ModRM/SIB is composed with the no-base marker (base=101b) while mod_disp was not cleared on this path: "
+                                              "mod=01/10 with base 101b means [rbp+disp], not a base-less disp32"))
+            return s
+        for c in ks:
+            s = self.eval(c, s)
+        return s
+
+    def assume(self, e, truth, s):
+        e0 = strip(e)
+        if e0.get("kind") == "BinaryOperator" and e0.get("opcode") in ("==", "!="):
+            l, r = strip(kids(e0)[0]), strip(kids(e0)[1])
+            for a, b in ((l, r), (r, l)):
+                if a.get("kind") == "MemberExpr" and EFF.owner_field(a) == ("operand", "reg") and ConstEval(self.prog).try_eval(b) == self.nb:
+                    want = truth if e0["opcode"] == "==" else not truth
+                    out = frozenset(t for t in s if t[0] == want)
+                    return out or None
+        return s
+
+    def ret(self, n, s):
+        pass
+
+
+def nobase_mod_rule(chk, prog, rule="NOBASE"):
+    """whenever the memory operand is given the no-base marker (base field 101b), the mod field is cleared before
+    ModRM/SIB are composed"""
+    from .flow import Flow
+    nb = macro_values(prog, ["NO_BASE"])["NO_BASE"]
+    fns = [fn for fn, f in prog.lib_functions().items()
+           if any(a.owner == "instr" and a.field == "no_base" and a.ctx == "w" for a in EFF.accesses(prog.body(f)))]
+    if len(fns) != 1:
+        chk.broken(rule, rule + "/site", "-", "one function implements the no-base rewriting", str(fns))
+        return
+    f = prog.fn(fns[0])
+    dom = _NoBaseDomain(prog, nb)
+    Flow(dom).function(prog, f, frozenset([(False, False)]))
+    seen = set()
+    for node, text in dom.viol:
+        key = "%s/%s@%s" % (rule, fns[0], loc_str(node))
+        if key not in seen:
+            seen.add(key)
+            chk.bad(rule, key, loc_str(node), "a base-less memory operand is encoded with mod=00", text)
+    if not dom.viol:
+        chk.ok(rule, "%s/%s" % (rule, fns[0]), loc_str(f), "on every path of %s that marks the operand base-less, mod_disp is cleared before ModRM/SIB are composed" % fns[0])
+    chk.floor("ModRM/SIB composition sites after the no-base rewriting", dom.nsites, 2)
